@@ -89,7 +89,8 @@ structure St where
   redirects : List Hop
   entries : List Entry
   wire : List Sent             -- what the servers received, in order
-  inflight : Nat               -- requests on the wire whose response the client has not consumed yet
+  inflight : Nat               -- (ghost) requests on the wire whose response the client has not consumed yet
+  peak : Nat                   -- (ghost) the largest value `inflight` ever had
   outcome : Outcome
 deriving Repr, DecidableEq
 
@@ -113,8 +114,9 @@ def transmit (servers : List Server) (s : St) (r : Req) : St :=
       { s with waited := true, cur := r,
                pending := some (sc.getD (usedOf s.port s.used) defaultResp),
                used := bump s.port s.used,
-               wire := s.wire ++ [⟨s.port, s.secure, r.method, r.path, r.body⟩],
-               inflight := s.inflight + 1 }
+               -- `Requester.build`: no body is sent with GET
+               wire := s.wire ++ [⟨s.port, s.secure, r.method, r.path, if r.method == lit "GET" then [] else r.body⟩],
+               inflight := s.inflight + 1, peak := max s.peak (s.inflight + 1) }
     | none => { s with waited := true, cur := r, pending := none }
   else { s with waited := true, cur := r, pending := none }
 
@@ -139,7 +141,7 @@ def finish (s : St) (status : Option Nat) (body : Bytes) (errored : Bool) : St :
 def handle (servers : List Server) (s : St) (rp : Resp) : St :=
   -- the response is consumed: it is no longer in flight; a closing server leaves the connection dead
   let s0 := { s with inflight := s.inflight - 1, pending := none,
-                     alive := s.alive && !(rp.close || rp.framing == 2) }
+                     alive := s.alive && !(rp.close || rp.framing == 2 || rp.framing == 3) }
   if isRedirect rp.status then
     let hop : Hop := ⟨rp.status, s.cur.path, s.latest⟩
     let s1 := { s0 with redirects := s0.redirects ++ [hop], latest := none }
@@ -161,7 +163,14 @@ def serviceResponse (servers : List Server) (arrived : Bool) (s : St) : St :=
   | none => finish s none [] true                          -- F51 fix: PrematureClosure → errored entry
   | some rp =>
     if !arrived then s
-    else if rp.framing == 3 then { s with outcome := .stuck }   -- C19-K1
+    else if rp.framing == 3 then
+      -- server closed before the declared length was delivered: with nothing left unparsed the parser raises
+      -- PrematureClosure (errored entry); with partial body bytes left it waits forever (C19-K1)
+      if rp.body.isEmpty then
+        -- (`redirectant` was already set by parseHead, so an errored redirect is still followed)
+        if isRedirect rp.status then handle servers s rp
+        else finish { s with inflight := s.inflight - 1, pending := none, alive := false } none [] true
+      else { s with outcome := .stuck }
     else handle servers s rp
 
 /-- one `Client.service()` -/
@@ -177,6 +186,6 @@ def run (servers : List Server) : List Bool → St → St
 def init (secure : Bool) (port : Nat) (servers : List Server) (reqs : List Req) : St :=
   { queue := (List.range reqs.length).zip reqs, waited := false, latest := none, cur := ⟨lit "GET", lit "/", []⟩,
     secure := secure, port := port, alive := (scriptOf servers port).isSome, pending := none, used := [],
-    redirects := [], entries := [], wire := [], inflight := 0, outcome := .running }
+    redirects := [], entries := [], wire := [], inflight := 0, peak := 0, outcome := .running }
 
 end Hio.Http.Cli
